@@ -291,11 +291,11 @@ class TorState(object):
             kw['orport'],
             kw['dirport'],
         )
+        # routers are re-used across consensus documents, so set
+        # everything the document can say about one (or not)
         router.flags = kw.get('flags', [])
-        if 'bandwidth' in kw:
-            router.bandwidth = kw['bandwidth']
-        if 'ip_v6' in kw:
-            router.ip_v6.extend(kw['ip_v6'])
+        router.bandwidth = kw.get('bandwidth', 0)
+        router.ip_v6 = list(kw.get('ip_v6', []))
 
         if 'guard' in router.flags:
             self.guards[router.id_hex] = router
